@@ -18,7 +18,7 @@ LEVEL = 'model_checking'
 TECHNIQUE = ('bounded exhaustive enumeration of (quantified pattern sequence, element sequence, container) on the real matcher with '
              "Python's re as reference model on every case; exhaustive self-match / leaf-mutation / layout / call-order "
              'enumeration over the program set')
-LEVEL_TEXT = ('all pattern sequences up to length 3 over a 25-element quantifier alphabet x all element sequences up to length 5 '
+LEVEL_TEXT = ('all pattern sequences up to length 3 over a 29-element quantifier alphabet (incl. static tags and single-node captures inside quantifiers) x all element sequences up to length 5 '
               'over {a,b,c} in three container kinds are matched by the real code and compared (accept/reject and captured '
               'spans) with re.fullmatch; every node of 45 programs x derived patterns for the structural laws')
 LEVEL_NOTE = ('trusted: Python re as the definition of quantifier semantics (sub-sequence quantifiers with inner quantifiers are '
@@ -27,7 +27,7 @@ RULE = ('enum: case = (container, pattern sequence, element string) or (program,
         'cases where the regex accepts (captures compared) or a structural law was exercised on a node with children; '
         'traces = matches compared with the reference')
 ASSUMPTIONS = ['patterns without source-text sub-patterns for the layout law']
-BOUNDS = {'quick': 'pattern sequences <= 3 over 25 alphabet entries (<=2 quantifiers with captures), strings <= 4 over {a,b,c} in '
+BOUNDS = {'quick': 'pattern sequences <= 3 over 29 alphabet entries (<=2 quantifiers with captures), strings <= 4 over {a,b,c} in '
                    'List.elts; length-2 sequences in body and Tuple; structural laws on 45 programs',
           'thorough': 'strings <= 6, sequences <= 3 in all containers, sequences of 4 over the 10-entry core alphabet'}
 
@@ -69,6 +69,12 @@ def alphabet(M):
     add("MTYPES((Name,Constant),id='a')", lambda: M.MTYPES((ast.Name, ast.Constant), id='a'), 'a')
     add("MQSTAR(t=MTYPES((Name,Constant),id='a'))", lambda: M.MQSTAR(t=M.MTYPES((ast.Name, ast.Constant), id='a')), '(?P<t>a*)', 't')
     add("MOR(MName('b'),MTYPES((Constant,Name),id='a'))", lambda: M.MOR(M.MName('b'), M.MTYPES((ast.Constant, ast.Name), id='a')), '[ab]')
+    # static tags (a constant carried by the pattern) and single-node captures inside a quantifier (regex: the group of the last
+    # iteration); tag kinds: ('static', name, value) / ('node', name)
+    add("M('a',st=True)", lambda: M.M('a', st=True), 'a', ('static', 'st', True))
+    add("MQOPT(M(v='b'))", lambda: M.MQOPT(M.M(v='b')), '(?:(?P<v>b))?', ('node', 'v'))
+    add("MQSTAR(M(w=...))", lambda: M.MQSTAR(M.M(w=...)), '(?:(?P<w>.))*', ('node', 'w'))
+    add("MQSTAR([M('a',sq=1),M(x=...)])", lambda: M.MQSTAR([M.M('a', sq=1), M.M(x=...)]), '(?:a(?P<x>.))*', ('node', 'x'))
     return A
 
 
@@ -119,7 +125,8 @@ def run_quant(fst, M, cont, seqlen, maxstr, first, res, pure_ast=False):
             continue  # the same tag twice: merged-tag semantics, not a regex group
         names = [A[i][0] for i in idxs]
         rx = re.compile(''.join(A[i][2] for i in idxs))
-        tags = [A[i][3] for i in idxs if A[i][3]]
+        tags = [A[i][3] for i in idxs if isinstance(A[i][3], str)]
+        xtags = [A[i][3] for i in idxs if isinstance(A[i][3], tuple)]
         try:
             pat = getattr(M, pcls)([A[i][1]() for i in idxs])
         except Exception as e:  # noqa: BLE001
@@ -160,6 +167,40 @@ def run_quant(fst, M, cont, seqlen, maxstr, first, res, pure_ast=False):
                                      f'want={list(range(a, b))}', {'subseq_quantifier': has_sub, 'nseq': len(idxs)}, rep)
                             ok = False
                             break
+                if ok and not pure_ast:
+                    for xt in xtags:
+                        try:
+                            if xt[0] == 'static':
+                                gv = got.tags.get(xt[1], '<absent>')
+                                if gv is not xt[2]:
+                                    res.fail(cid, 'static-tag-lost-or-changed', f'pattern=[{", ".join(names)}] elements={s!r} tag={xt[1]} got={gv!r}',
+                                             {'nseq': len(idxs)}, rep)
+                                    ok = False
+                                    break
+                            else:
+                                gv = got.tags.get(xt[1])
+                                wi = want.start(xt[1]) if want.group(xt[1]) is not None else None
+                                gi = None if gv is None else gv.pfield.idx if getattr(gv, 'root', None) is f else ('foreign', repr(gv))
+                                if gi != wi:
+                                    res.fail(cid, 'captured-node-differs-from-regex-group',
+                                             f'pattern=[{", ".join(names)}] regex={rx.pattern!r} elements={s!r} tag={xt[1]} got index={gi} '
+                                             f'want={wi}', {'nseq': len(idxs)}, rep)
+                                    ok = False
+                                    break
+                        except Exception as e:  # noqa: BLE001
+                            res.fail(cid, 'capture-unreadable', repr(e), {}, rep)
+                            ok = False
+                            break
+                    if ok:  # nothing in the result may point into another tree (the pattern object is reused for every target)
+                        for tv in got.tags.values():
+                            for x in (tv if isinstance(tv, list) else [tv]):
+                                node = getattr(x, 'matched', x)
+                                for nd in (node if isinstance(node, list) else [node]):
+                                    if hasattr(nd, 'root') and hasattr(nd, 'pfield') and nd.root is not f:
+                                        res.fail(cid, 'match-result-refers-to-another-tree', f'pattern=[{", ".join(names)}] elements={s!r} {nd!r}',
+                                                 {'nseq': len(idxs)}, rep)
+                                        ok = False
+                                        break
                 if ok:
                     res.nontriv(cont, idxs, s)
                     res.outcomes['accept'] += 1
